@@ -555,6 +555,15 @@ fn decode_units(rd: &mut Rd<'_>, binary: bool) -> R<Vec<DecUnit>> {
             return mal("missing EOF after column definitions");
         }
         let (mid_status, _) = parse_eof(&p)?;
+        // SERVER_STATUS_CURSOR_EXISTS / LAST_ROW_SENT on the EOF that ends the column definitions
+        // tell a client that the rows do NOT follow inline (it is to fetch them through the
+        // cursor): a reply that then carries its rows inline is not one a client can decode
+        if mid_status & 0x00C0 != 0 {
+            return mal(format!(
+                "EOF after column definitions announces a cursor (status {:#06x}) but the rows follow inline",
+                mid_status
+            ));
+        }
         let mut rows = Vec::new();
         let term;
         loop {
